@@ -95,27 +95,29 @@ def _fold(op, items):
     return t
 
 
-def hint_convert(expr, symbols_map, d, flag, level=14):
+def hint_convert(expr, symbols_map, d, flag, level=14, exact=None):
     """(printed text or None, hint): follows _convert_internal_expression_to_pddl of the library, using the library's own
     extract_atom / is_number_string for every decision; the hint is the same tree with exact constants, the dropped
-    terms kept"""
+    terms kept.  exact: optional {mpf of a Float atom: Fraction} - values computed by [exactify] instead of guessed"""
     if expr.is_Atom:
         s = nso.extract_atom(expr, symbols_map, d, flag)
         if expr.is_number and not expr.is_Integer:
+            if exact is not None and expr.func is Float and expr._mpf_ in exact:
+                return s, frac_text(exact[expr._mpf_])
             return s, exact_text(expr, level)
         return s, (s if s is not None else "0")
     if isinstance(expr, Pow):
         n = int(expr.exp)
         if not expr.exp.is_Integer or n == 0:
             raise ValueError("exponent")
-        bs, bh = hint_convert(expr.base, symbols_map, d, flag, level)
+        bs, bh = hint_convert(expr.base, symbols_map, d, flag, level, exact)
         bs = bs if bs else "0"
         ts, th = bs, bh
         for _ in range(abs(n) - 1):
             ts, th = "(* %s %s)" % (ts, bs), "(* %s %s)" % (th, bh)
         return (ts, th) if n > 0 else ("(/ 1 %s)" % ts, "(/ 1 %s)" % th)
     op = nso.SYMPY_OP_TO_PDDL_OP[expr.func]
-    comps = [hint_convert(a, symbols_map, d, flag, level) for a in expr.args]
+    comps = [hint_convert(a, symbols_map, d, flag, level, exact) for a in expr.args]
     if isinstance(expr, Mul) and any(not c[0] for c in comps):
         return None, _fold("*", [c[1] for c in comps])
     kept = [c for c in comps if c[0]]
@@ -134,6 +136,89 @@ def hint_convert(expr, symbols_map, d, flag, level=14):
     for z in dropped:
         th = "(+ %s %s)" % (z, th)
     return ts, th
+
+
+def float_value(e):
+    sign, man, exp, _bc = e._mpf_
+    v = Fraction(int(man)) * (Fraction(2) ** int(exp))
+    return -v if sign else v
+
+
+def significant_digits(fr):
+    """number of significant decimal digits of a fraction with a finite decimal expansion, else 99"""
+    den = fr.denominator
+    k = 0
+    while den % 10 == 0:
+        den //= 10
+        k += 1
+    while den % 2 == 0:
+        den //= 2
+        k += 1
+    while den % 5 == 0:
+        den //= 5
+        k += 1
+    if den != 1:
+        return 99
+    return len(str(abs(fr.numerator * 10 ** k // fr.denominator)).strip("0")) if fr != 0 else 1
+
+
+def exact_expr(ast, sym_by_text):
+    """the input (token tree of the PDDL text) as a sympy expression with exact Rational constants over the library's symbols"""
+    if isinstance(ast, str):
+        return Rational(ast)
+    if ast[0] in ARITH and len(ast) == 3:
+        a, b = exact_expr(ast[1], sym_by_text), exact_expr(ast[2], sym_by_text)
+        return {"+": a + b, "-": a - b, "*": a * b, "/": a / b}[ast[0]]
+    return sym_by_text[_canon_fluent(ast)]
+
+
+def _canon_fluent(ast_or_text):
+    toks = _tokens(ast_or_text) if isinstance(ast_or_text, str) else ["("] + list(ast_or_text) + [")"]
+    return " ".join(toks)
+
+
+def exactify(expr, symbolic_vars, input_ast):
+    """UNTRUSTED hint computation: exact rational values for the Float atoms of the sympy expression the library printed, such
+    that the expression equals the input EXACTLY (as rational functions).  A float names its exact value only up to ~16
+    digits; products of the input's constants have more.  Atoms that are short decimals are taken at their word, the others
+    are unknowns of the identity  expr(u) = input, which is solved when it is linear in them (after fixing more atoms if
+    needed).  Returns {mpf: Fraction} or None."""
+    atoms = {}
+    for a in sympy.preorder_traversal(expr):
+        if a.func is Float:
+            atoms.setdefault(a._mpf_, a)
+    if not atoms:
+        return None
+    sym_by_text = {_canon_fluent(k): v for k, v in (symbolic_vars or {}).items()}
+    target = exact_expr(input_ast, sym_by_text)
+    guess = {k: clean(float_value(a), 16) for k, a in atoms.items()}
+    order = sorted(atoms, key=lambda k: -significant_digits(guess[k]))        # the longest decimals first
+    unknown = [k for k in order if significant_digits(guess[k]) > 9]
+    fluents = sorted(expr.free_symbols | target.free_symbols, key=str)
+    while unknown:
+        us = {k: Symbol("u_%d" % i) for i, k in enumerate(unknown)}
+        repl = {atoms[k]: (us[k] if k in us else Rational(guess[k].numerator, guess[k].denominator)) for k in atoms}
+        diff = sympy.together(expr.xreplace(repl) - target)
+        num = sympy.expand(sympy.numer(diff))
+        eqs = sympy.Poly(num, *fluents).coeffs() if fluents else [num]
+        syms = list(us.values())
+        if all(sympy.Poly(e, *syms).total_degree() <= 1 for e in eqs):
+            sol = sympy.linsolve(eqs, syms)
+            for tup in sol:
+                if all(not t.free_symbols for t in tup):
+                    out = dict(guess)
+                    ok = True
+                    for k, t in zip(unknown, tup):
+                        fr = Fraction(int(t.p), int(t.q))
+                        v = float_value(atoms[k])
+                        if abs(fr - v) > abs(v) * Fraction(1, 10 ** 9):
+                            ok = False
+                        out[k] = fr
+                    if ok:
+                        return out
+        unknown = unknown[:-1]           # take one more atom at its word and retry
+    diff = sympy.simplify(expr.xreplace({atoms[k]: Rational(guess[k].numerator, guess[k].denominator) for k in atoms}) - target)
+    return dict(guess) if diff == 0 else None
 
 
 def _tokens(text):
@@ -202,6 +287,9 @@ def hint_table():
     return table
 
 
+_CALLS = []       # (sympy expression, symbolic_vars, digits, flag, result) of every convert call of the current job
+
+
 def _rec_convert(expr, symbolic_vars, decimal_digits=nso.DEFAULT_DECIMAL_DIGITS, should_remove_trailing_zeros=True):
     entry = {"kind": "convert", "tree": None, "symmap": None, "digits": decimal_digits,
              "flag": bool(should_remove_trailing_zeros)}
@@ -214,6 +302,7 @@ def _rec_convert(expr, symbolic_vars, decimal_digits=nso.DEFAULT_DECIMAL_DIGITS,
         r = _ORIG_CONVERT(expr, symbolic_vars, decimal_digits=decimal_digits,
                           should_remove_trailing_zeros=should_remove_trailing_zeros)
         entry["result"] = r
+        _CALLS.append((expr, symbolic_vars, decimal_digits, should_remove_trailing_zeros, r))
         try:
             hints = []
             for level in LEVELS:
@@ -306,6 +395,7 @@ def run(job):
     """job: entry in expr | ineq | eq | tree | pre | print; digits; conds (prefix texts); assumptions (prefix
     texts of equalities, entry ineq only)"""
     del _LOG[:]
+    del _CALLS[:]
     entry, d = job["entry"], job["digits"]
     out = {}
     try:
@@ -443,8 +533,14 @@ def make_hints(job, out):
     if "ok" not in out:
         return []
     table = hint_table()
+    computed = []
+    if job["entry"] in ("expr", "tree"):
+        try:
+            computed = computed_hints(job, out)
+        except Exception as ex:  # noqa
+            out["computed_hints_error"] = repr(ex)[:200]
     if job["entry"] == "expr":
-        hs = []
+        hs = list(computed)
         lists = table.get(_show(_sexp(out["ok"][0])), [])
         for level in range(len(LEVELS)):
             for hl in lists:
@@ -458,7 +554,7 @@ def make_hints(job, out):
     extra = []
     if job["entry"] == "tree":
         extra = [_show(_sexp(job["conds"][0])[2])]
-    per_cond = [cond_hints(c, table, extra) for c in conds]
+    per_cond = [computed] + [cond_hints(c, table, extra) for c in conds]
     # round robin over the printed conditions, so that the cap never starves one of them
     hints, k = [], 0
     while len(hints) < MAX_HINTS and any(k < len(pc) for pc in per_cond):
@@ -471,6 +567,36 @@ def make_hints(job, out):
         if c not in hints:
             hints.append(c)
     return hints
+
+
+def computed_hints(job, out):
+    """expr / tree: the left side the library printed is simplify() of the input's left side, so the exact values of its Float
+    atoms can be computed from the input ([exactify]) instead of guessed from the floats"""
+    ast = _sexp(job["conds"][0])
+    is_tree = job["entry"] == "tree"
+    left_in = ast[1] if is_tree else ast
+    printed = _sexp(out["ok"][0])
+    left_out = _show(printed[1]) if is_tree else _show(printed)
+    hs = []
+    for expr, symvars, d, flag, r in _CALLS:
+        if not isinstance(r, str) or _show(_sexp(r)) != left_out:
+            continue
+        if not any(isinstance(a, Mul) and any(isinstance(b, Add) for b in a.args) for a in sympy.preorder_traversal(expr)):
+            continue                      # a plain sum of monomials is validated coefficientwise, no hint needed
+        ex = exactify(expr, symvars, left_in)
+        if ex is None:
+            continue
+        t, h = hint_convert(expr, {v: k for k, v in (symvars or {}).items()}, d, flag, 16, ex)
+        if (t if t else "0") != r:
+            continue
+        if is_tree:
+            for right in (_show(ast[2]), _show(printed[2])):
+                c = "(%s %s %s)" % (ast[0], h, right)
+                if c not in hs:
+                    hs.append(c)
+        elif h not in hs:
+            hs.append(h)
+    return hs
 
 
 def _show(e):
